@@ -5,7 +5,7 @@ import itertools
 import numpy as np
 
 from .. import gen, core, probe
-from ..dense import dense, close
+from ..dense import dense, close, core_scale
 from ..drive import call, expect_refusal
 from ..shard import Workload
 from ._common import arm_tt
@@ -219,7 +219,7 @@ def w_qtt(ctx, rng, idx):
         ok2, back = call('TT.qtt2tt', lambda: q.qtt2tt(mn), prop=P)
         if ok2 and isinstance(back, tt.TT):
             with __import__('vt.probe', fromlist=['oracle']).oracle():
-                good = list(back.row_dims) == rows and list(back.col_dims) == cols and close(dense(back), dense(a), 1e-9)
+                good = list(back.row_dims) == rows and list(back.col_dims) == cols and close(dense(back), dense(a), 1e-9, scale=1e-4 * core_scale(a.cores))  # (a train may cancel to ~0: rounding noise scales with the cores)
             ctx.check('TT.qtt2tt', 'roundtrip_identity', good, [], {'rows': rows, 'cols': cols, 'rf': rf, 'cf': cf}, prop=P)
         # merging in a different grouping than the split
         if q.order >= 2:
